@@ -74,11 +74,11 @@ fn c15_spec() -> CheckSpec {
     CheckSpec {
         property: "C15",
         level: "exploration",
-        rule: "a model loaded from a file with 1..3 MODULEs and 0..300 MODULE-level elements of up to 20 kinds in arbitrary order, with A2ML, MOD_COMMON, MOD_PAR, VARIANT_CODING, IF_DATA and USER_RIGHTS blocks at arbitrary positions among them (optional comments), then a seeded history of up to 60 (thorough: 400) operations over {push new element of kind K (all 20 list kinds and USER_RIGHTS), merge a small module with fresh names, sort_new_items (runs of 1..64 consecutive calls drawn on purpose), write to the simulated FS, write + reload}. After every operation the output text is scanned by an independent scanner for the MODULE-level (kind, name) sequence and compared with an order model: placed elements never change relative order; after sort_new_items each pending element whose kind has a placed member stands after the last placed element of its kind and before the placed element that followed it, others stay at the end; nothing is lost or duplicated; no panic or arithmetic overflow. evaluations = library calls. Non-trivial: at least one sort_new_items placed a pending element. Distinct: (size bucket, kinds, longest consecutive-sort run bucket, effective sorts, merges, pending kinds).",
+        rule: "a model loaded from a file with 1..3 MODULEs and 0..300 MODULE-level elements of up to 20 kinds in arbitrary order, with A2ML, MOD_COMMON, MOD_PAR, VARIANT_CODING, IF_DATA and USER_RIGHTS blocks at arbitrary positions among them (optional comments), then a seeded history of up to 60 (thorough: 400) operations over {push new element of kind K (all 20 list kinds, USER_RIGHTS and API-built IF_DATA), merge a small module with fresh names, sort_new_items (runs of 1..64 consecutive calls drawn on purpose), write to the simulated FS, write + reload}. After every operation the output text is scanned by an independent scanner for the MODULE-level (kind, name) sequence and compared with an order model: placed elements never change relative order; after sort_new_items each pending element whose kind has a placed member stands after the last placed element of its kind and before the placed element that followed it, others stay at the end; nothing is lost or duplicated; no panic or arithmetic overflow. evaluations = library calls. Non-trivial: at least one sort_new_items placed a pending element. Distinct: (size bucket, kinds, longest consecutive-sort run bucket, effective sorts, merges, pending kinds).",
         assumptions: vec![
             "history dimension only: nothing here is nondeterministic and no fault is involved; the write/reload steps go through the VFS but no oracle depends on that",
             "the mutual order of elements inserted by the same call, and of pending elements at the end, is not constrained (the property does not state it)",
-            "every MODULE-level block of the file belongs to the placed order; pushed are the 20 name-indexed list kinds and USER_RIGHTS. New optional single blocks (A2ML, MOD_COMMON, MOD_PAR, VARIANT_CODING) are not pushed: the code places them at the top on purpose, which the property neither demands nor forbids",
+            "every MODULE-level block of the file belongs to the placed order; pushed are the 20 name-indexed list kinds, USER_RIGHTS and IF_DATA. New optional single blocks (A2ML, MOD_COMMON, MOD_PAR, VARIANT_CODING) are not pushed: the code places them at the top on purpose, which the property neither demands nor forbids",
         ],
         real_components: vec!["a2lfile: sort_new_items, merge_modules, writer ordering (Writer::sort_function), load/write"],
         stubbed_components: vec!["file system (in-memory VFS, used by the write steps only)"],
